@@ -830,6 +830,32 @@ fn main() {
             }
             println!("ok position assembly");
         }
+        "area_assembly" => {
+            use geo::Area;
+            use geo_types::{Geometry, GeometryCollection, LineString, MultiPolygon, Polygon, Rect, Triangle};
+            let ccw = |x0: f64, y0: f64, x1: f64, y1: f64| -> LineString<f64> { vec![(x0, y0), (x1, y0), (x1, y1), (x0, y1), (x0, y0)].into() };
+            let cw = |x0: f64, y0: f64, x1: f64, y1: f64| -> LineString<f64> { vec![(x0, y0), (x0, y1), (x1, y1), (x1, y0), (x0, y0)].into() };
+            // holes of mixed orientation: 100 - 4 - 9, sign of the shell
+            let p = Polygon::new(ccw(0.0, 0.0, 10.0, 10.0), vec![cw(1.0, 1.0, 3.0, 3.0), ccw(5.0, 5.0, 8.0, 8.0)]);
+            let q = Polygon::new(cw(0.0, 0.0, 10.0, 10.0), vec![cw(1.0, 1.0, 3.0, 3.0), ccw(5.0, 5.0, 8.0, 8.0)]);
+            if p.signed_area() != 87.0 || p.unsigned_area() != 87.0 || q.signed_area() != -87.0 || q.unsigned_area() != 87.0 {
+                fail(format!("polygon with holes of mixed orientation: {} {} {} {}", p.signed_area(), p.unsigned_area(), q.signed_area(), q.unsigned_area()));
+            }
+            let mp = MultiPolygon(vec![p.clone(), q.clone(), Polygon::new(ccw(20.0, 0.0, 22.0, 2.0), vec![])]);
+            if mp.signed_area() != 4.0 || mp.unsigned_area() != 178.0 {
+                fail(format!("multi-polygon: signed {} unsigned {}", mp.signed_area(), mp.unsigned_area()));
+            }
+            let t = Triangle(coord! {x: 0.0, y: 0.0}, coord! {x: 0.0, y: 3.0}, coord! {x: 4.0, y: 0.0});
+            let r = Rect::new(coord! {x: 1.0, y: 1.0}, coord! {x: 4.0, y: 3.0});
+            if t.signed_area() != -6.0 || t.unsigned_area() != 6.0 || r.signed_area() != 6.0 || r.unsigned_area() != 6.0 {
+                fail(format!("triangle {} {} rect {} {}", t.signed_area(), t.unsigned_area(), r.signed_area(), r.unsigned_area()));
+            }
+            let gc = GeometryCollection(vec![Geometry::Polygon(q), Geometry::Triangle(t), Geometry::Rect(r)]);
+            if gc.signed_area() != -87.0 - 6.0 + 6.0 || gc.unsigned_area() != 99.0 {
+                fail(format!("collection: signed {} unsigned {}", gc.signed_area(), gc.unsigned_area()));
+            }
+            println!("ok area assembly");
+        }
         _ => {
             eprintln!("unknown op {op}");
             std::process::exit(4);
